@@ -935,7 +935,7 @@ def dispatch(c, seed=(0,), nint=6, types=("cell", "exterior_facet", "interior_fa
         u, v = TrialFunction(V), TestFunction(V)
         form = None
         d = []
-        idpool = [0, 1, 2, 3, 7, 1000000]
+        idpool = [0, 1, 2, 3, 7, 10, 12, 100, 1000000, 2**31 - 2]  # incl. ids whose decimal strings sort differently from the numbers
         for i in range(nint):
             t = types[int(rng.integers(len(types)))]
             r = rng.random()
